@@ -266,7 +266,7 @@ def gatherStats (m : StatsMode) (cx : Ctx) (t : Table) (req : Request) (reqCols 
     let ok := (if m.pushDown then matchAll m.q v req.filter else semList m.q v req.filter) && checkAuth cx t req.authUser r
     if !ok then some acc
     else
-      let key := joinWith sep0 (reqCols.map (fun c => (v.get c).asString))
+      let key := joinWith sep0 (reqCols.map (fun c => (v.get c).keyString))
       acc.upsert key init fun accs =>
         match grouped with
         | some nodes => countNodes m.q v nodes accs
@@ -329,7 +329,7 @@ def statsSpec (s : Schema) (ds : Dataset) (t : Table) (req : Request) : List (St
     let cx : Ctx := { schema := s, ds := ds, b := b }
     ((tableRows cx t).filter (fun r => semList q (mkView cx t r) req.filter && checkAuth cx t req.authUser r)).map fun r =>
       let v := mkView cx t r
-      (joinWith sep0 (reqCols.map (fun c => (v.get c).asString)), v)
+      (joinWith sep0 (reqCols.map (fun c => (v.get c).keyString)), v)
   let keys := (views.map (·.1)).eraseDups
   let keys := if req.columns.isEmpty && keys.isEmpty then [""] else keys
   keys.map fun k =>
